@@ -6,6 +6,44 @@ use ddo::*;
 use std::sync::Mutex;
 use symx_int::{is_symbolic_run, note, oblige, observe, Cond, CostLike};
 
+/// the real SimpleCache behind a transparent wrapper that reports (as notes) when a sub-problem popped
+/// from the fringe is discarded because of a recorded threshold
+pub struct CountingCache(pub SimpleCache<St>);
+impl Default for CountingCache {
+    fn default() -> Self {
+        CountingCache(SimpleCache::default())
+    }
+}
+impl Cache for CountingCache {
+    type State = St;
+    fn must_explore(&self, sp: &SubProblem<St>) -> bool {
+        let r = self.0.must_explore(sp);
+        if !r {
+            note("cache_skip_at_pop");
+        }
+        r
+    }
+    fn initialize(&mut self, p: &dyn Problem<State = St>) {
+        self.0.initialize(p)
+    }
+    fn get_threshold(&self, s: &St, d: usize) -> Option<Threshold> {
+        let r = self.0.get_threshold(s, d);
+        if r.is_some() {
+            note("cache_hit");
+        }
+        r
+    }
+    fn update_threshold(&self, s: std::sync::Arc<St>, d: usize, v: Cost, e: bool) {
+        self.0.update_threshold(s, d, v, e)
+    }
+    fn clear_layer(&self, d: usize) {
+        self.0.clear_layer(d)
+    }
+    fn clear(&self) {
+        self.0.clear()
+    }
+}
+
 #[derive(Clone, Debug, PartialEq)]
 pub enum Mode {
     Plain,
